@@ -145,7 +145,7 @@ var propSpecs = map[string]*PropSpec{
 		Level:       "proof",
 		Explanation: "partial: the tokenizer's cursor API (Next, NextText, Peek, PeekText, Advance, CurrentLine, CurrentColumn, Set, Reset, Delete, Insert) is under safe-mode contracts with the representation invariant 'the cursor is never negative' (every function of the module that assigns Tokenizer.TokenP keeps it, table obligation), so every index into the token list is in bounds for every token list, cursor and argument; plus the ledger of no-panic sites the contract-free sweep proved in internal/language/tokenizer",
 		TrustedBase: []string{"the compiler and the bytecode interpreter are NOT covered (their dispatch functions are beyond what the sweep could lower in the memory available); the property as a whole (no source text crashes the host) is not decided", "nil dereferences are not claimed"},
-		Sweep:       []string{modInternal + "language/tokenizer"},
+		Sweep:       []string{modInternal + "language/tokenizer", modInternal + "language/compiler", modInternal + "language/bytecode"},
 		Extra:       c07Extra,
 	},
 	"C27": {
